@@ -426,6 +426,34 @@ class Parser():
         """
         pos = self._pos
 
+        print_tok = self._accept(lexer.TokName(b'?'))
+        if print_tok is not None:
+            # PICO-8 print shorthand: "?" explist, up to the end of the line.
+            name = VarName(print_tok, start=pos, end=self._pos)
+            args_pos = self._pos
+            line_end_pos = self._pos
+            while (line_end_pos < len(self._tokens) and
+                   not self._tokens[line_end_pos].matches(lexer.TokNewline)):
+                line_end_pos += 1
+            outer_max_pos = self._max_pos
+            try:
+                if outer_max_pos is None or line_end_pos < outer_max_pos:
+                    self._max_pos = line_end_pos
+                explist = self._assert(self._explist(),
+                                       'Expected expression after ?')
+                end_pos = self._max_pos
+            finally:
+                self._max_pos = outer_max_pos
+            for t in self._tokens[self._pos:end_pos]:
+                if not (isinstance(t, lexer.TokSpace) or
+                        isinstance(t, lexer.TokComment)):
+                    raise ParserError(
+                        'Unexpected token after ? arguments', token=t)
+            args = FunctionArgs(explist, start=args_pos, end=self._pos,
+                                short_print=True)
+            call = FunctionCall(name, args, start=pos, end=self._pos)
+            return StatFunctionCall(call, start=pos, end=self._pos)
+
         varlist = self._varlist()
         if varlist is not None:
             # (Missing '=' is not a fatal error because varlist might also
